@@ -169,4 +169,9 @@ example : (choquetValue (1/100000) (⟨"a", []⟩ : Alt Rat) []).toOption
 /-- the 1e-8 rounding the API applies moves the reported value by at most 5·10⁻⁹ -/
 theorem rounding_error (x : Rat) : |round8 x - x| ≤ 1 / (2 * 10 ^ 8) := round8_error x
 
+
+/-- the constants this property depends on were re-read from the working tree on this run (none of
+    them fell back to its pinned value because its declaration could not be located) -/
+theorem facts_fresh : (Facts.staleFacts.all fun n => !["choquetEps", "roundPrecision", "criteriaSeparator", "critGain", "paramWeights"].contains n) = true := by decide
+
 end Rdm.Props.C03
